@@ -38,6 +38,11 @@ def run_case(ck, paths, idx, cls=None):
     f = ck.tmp(".fa")
     common.write_bytes(f, fmt.write_fasta(recs))
     d = ck.tmpdir()
+    # the same directory spelled the way callers join paths: plain, doubled slash (directory given with a trailing slash), "./" components
+    sep = rng.choice(["", "", "/", "/.", "/./."])
+    if sep:
+        d = d + sep
+        ck.count("alignments_written_to_paths_spelled_with_%s" % {"/": "double_slash", "/.": "dot_component", "/./.": "two_dot_components"}[sep])
     nt = rng.choice([1, 4])
     script = ["read 0 %s" % f, "run 0 %d 5 -1 -1 -1" % nt, "dump 0"]
     # a write that fails half way (device full) must not change what later writes produce
